@@ -913,6 +913,16 @@ type reflectValue struct{ v IfaceV }
 
 func (ex *Exec) invokeNative(fr *frame, nv NativeV, method string, args []Value, pos tokenPos) Value {
 	switch r := nv.v.(type) {
+	case luaValueBox:
+		switch method {
+		case "Type":
+			return mkInt(luaTypeCode(r.v))
+		case "String":
+			if s, ok := r.v.(LStrV); ok {
+				return s.t
+			}
+			return mkStr(luaTypeName(r.v))
+		}
 	case reflectType:
 		switch method {
 		case "Name":
